@@ -183,6 +183,64 @@ theorem c03_dispatcher_shape :
     Gen.C03.popErrorReason = "statusReasonNoReadyEndpoints" ∧ Gen.C03.popErrorReturns = true ∧
     Gen.C03.forwardHostFromPicked = true ∧ Gen.C03.transportFromPicked = true := by decide
 
+/-! ## what "healthy" is: the decision of `controllers.GatewayHealthCheck` -/
+
+/-- **only the answer `200` marks an endpoint healthy** (whatever the body): 201–206 pass the rest client without error but are
+    not `http.StatusOK`; every other status, a timeout and any transport error are errors of the rest client. -/
+theorem c03_probe_decision (a : ProbeAnswer) : gatewayHealthCheck a = true ↔ ∃ b, a = .status 200 b := by
+  cases a with
+  | status code b =>
+    simp only [gatewayHealthCheck, restClientError, Bool.and_eq_true, beq_iff_eq, ProbeAnswer.status.injEq]
+    constructor
+    · rintro ⟨_, h⟩; exact ⟨b, h, rfl⟩
+    · rintro ⟨b', h, _⟩; subst h; exact ⟨by decide, rfl⟩
+  | timeout => simp [gatewayHealthCheck]
+  | transportError => simp [gatewayHealthCheck]
+
+/-- the shape of `GatewayHealthCheck` the decision function mirrors (regenerated from the source on every run): one
+    `UpdateStatus(true, …)`, guarded by `statusCode == http.StatusOK`, in the else branch of `err != nil`, `statusCode` read
+    from the response -/
+theorem c03_health_check_shape :
+    Gen.C03.healthTrueCalls = 1 ∧ Gen.C03.healthTrueGuard = "statusCode == http.StatusOK" ∧
+    Gen.C03.healthTrueElseOf = "err != nil" ∧ Gen.C03.healthTrueInElse = true ∧ Gen.C03.healthReadsStatusCode = true := by decide
+
+private theorem run_append (s : State) (xs ys : List Op) :
+    run s (xs ++ ys) = ((run (run s xs).1 ys).1, (run s xs).2 ++ (run (run s xs).1 ys).2) := by
+  induction xs generalizing s with
+  | nil => simp [run]
+  | cons x xs ih => simp [run, ih]
+
+private theorem run_length (s : State) (xs : List Op) : (run s xs).2.length = xs.length := by
+  induction xs generalizing s with
+  | nil => simp [run]
+  | cons x xs ih => simp [run, ih]
+
+theorem stateOf_snoc (ops : List Op) (op : Op) : stateOf (ops ++ [op]) = (step (stateOf ops) op).1 := by
+  simp [stateOf, run_append, run]
+
+theorem absOf_snoc (ops : List Op) (op : Op) :
+    absOf (ops ++ [op]) = absStep (absOf ops) op (step (stateOf ops) op).2 := by
+  unfold absOf modelTrace absRun
+  rw [run_append]
+  simp only
+  rw [List.zip_append (by rw [run_length])]
+  simp [run, stateOf]
+
+/-- **an endpoint whose last probe answer is not the healthy answer is never picked**: after a probe of `n` that was answered
+    anything but `200`, no request in flight can be handed `n` (until a later report says otherwise) -/
+theorem c03_unhealthy_answer_not_picked (ops : List Op) (n : Name) (ans : ProbeAnswer) (hans : ∀ b, ans ≠ .status 200 b)
+    (n' : Name) (g' : Nat) (hf : (step (stateOf ops) (.probeFire n (gatewayHealthCheck ans))).2 = .fired n' g')
+    (j : Nat) (g : Nat) :
+    (step (stateOf (ops ++ [.probeFire n (gatewayHealthCheck ans)])) (.pop j)).2 ≠ .popped (.picked n g) := by
+  intro hp
+  obtain ⟨_, _, _, _, _, hh, _⟩ := c03_pick_sound _ j n g hp
+  have hfalse : gatewayHealthCheck ans = false := by
+    cases hd : gatewayHealthCheck ans with
+    | false => rfl
+    | true => obtain ⟨b, hb⟩ := (c03_probe_decision ans).1 hd; exact absurd hb (hans b)
+  rw [absOf_snoc, hf, hfalse] at hh
+  simp [absStep, Abs.healthy, List.lookup_cons] at hh
+
 /-! ## requests racing with a Sync that changes the server set — finding C03-lb-reset-race (fixed by bb51c11)
 
 The theorems above treat `sync` and `pop` as atomic ops.  On the real code a `Pop` can run *while* `syncEndpoints` resets
@@ -255,6 +313,11 @@ example : (step (stateOf h3) (.pop 0)).2 = .popped (.picked b 0) := by decide
 example : (step (stateOf (h3 ++ [.probeFire a true])) (.pop 0)).2 = .popped (.picked a 3) := by decide
 example : (step (stateOf h1) (.probeFire a true)).2 = .notFired := by decide
 example : (step (stateOf (h1 ++ [.trigger a])) (.probeFire a true)).2 = .fired a 0 := by decide
+/-- a probe answered 204 fires, reports unhealthy, and the endpoint is not handed out any more -/
+example : (step (stateOf (h1 ++ [.trigger a])) (.probeFire a (gatewayHealthCheck (.status 204 true)))).2 = .fired a 0 := by decide
+example : (step (stateOf (h1 ++ [.trigger a, .probeFire a (gatewayHealthCheck (.status 204 true))])) (.pop 0)).2 = .popped .noReady := by decide
+example : gatewayHealthCheck (.status 200 false) = true ∧ gatewayHealthCheck (.status 206 true) = false ∧
+    gatewayHealthCheck (.status 503 true) = false ∧ gatewayHealthCheck .timeout = false := by decide
 end NonVacuous
 
 end KG.Props.C03
